@@ -55,7 +55,7 @@ def generate_component(component: dict[str, Any]) -> Component:
         raise IncorrectComponentInformation(f"Given value information for component '{component_id}' of type '{component_type}' is incorrect: '{component_value}'")
 
 def undictify_circuit(circuit: dict) -> Circuit:
-    return Circuit([generate_component(entry) for entry in circuit['components']])
+    return Circuit([generate_component(dump_load.undictify_all_complex_values(entry)) for entry in circuit['components']])
 
 deserialize = functools.partial(dump_load.deserialize, dict_preprocessor=undictify_circuit)
 load = functools.partial(dump_load.load, deserialize_fcn=deserialize)
